@@ -221,7 +221,7 @@ def w_hier(rng, task):
 def w_melody(rng, task):
     files = {}
     for side in ("ref", "est"):
-        n = rng.choice([1, 2, 3, 5, 10, 25, 40])
+        n = rng.choice([0, 1, 1, 2, 3, 5, 10, 25, 40])
         hop = rng.choice([0.01, 0.01, 0.0058, 0.02])
         t0 = rng.choice([0.0, 0.0, hop])
         base = rng.uniform(100, 800)
@@ -507,16 +507,16 @@ def a_melody(me, d):
         c.verdict, c.why = UNSPEC, "non-finite"
         return c
     if rt.size == 0 or et.size == 0:
-        c.verdict, c.why = UNSPEC, "empty melody series"
+        # the melody metrics define a score (0, with a warning) for empty arrays, so an empty stored
+        # series is a valid degenerate input of evaluate(); judged under its own site
+        c.verdict, c.why = VALID, "empty melody series"
+        c.must_return = [("melody.evaluate[empty series]", lambda: ml.evaluate(rt, rf, et, ef))]
         return c
     if np.any(np.diff(rt) <= 0) or np.any(np.diff(et) <= 0) or rt[0] < 0 or et[0] < 0:
         c.verdict, c.why = UNSPEC, "times not strictly increasing / negative (no validator documented)"
         return c
     if rt[-1] > HORIZON or et[-1] > HORIZON:
         c.verdict, c.why = UNSPEC, "time beyond the harness horizon"
-        return c
-    if rt.size < 2 or et.size < 2:
-        c.verdict, c.why = UNSPEC, "single-frame melody series (interpolation undefined)"
         return c
     c.verdict = VALID
     c.must_return = [("melody.evaluate", lambda: ml.evaluate(rt, rf, et, ef))]
